@@ -1,0 +1,97 @@
+/// \file bxdecay0/verif_hooks.h
+/// \brief Optional observation hooks for external verification harnesses
+///
+/// All the macros below expand to nothing unless the library is built
+/// with -DBXDECAY0_VERIF.  When the guard is on, an event is emitted
+/// only if the calling thread has installed a tracer (default: none).
+
+#ifndef BXDECAY0_VERIF_HOOKS_H
+#define BXDECAY0_VERIF_HOOKS_H
+
+#ifdef BXDECAY0_VERIF
+
+#include <cstddef>
+
+namespace bxdecay0 {
+  namespace verif {
+
+    /// \brief Interface of a per-thread observer
+    struct tracer
+    {
+      virtual ~tracer() {}
+      /// A traced function is entered (name and numeric arguments)
+      virtual void enter(const char * name_, std::size_t n_, const double * args_) = 0;
+      /// A traced function is left (normally or by exception)
+      virtual void leave(const char * name_) = 0;
+      /// A point event with numeric payload
+      virtual void note(const char * name_, std::size_t n_, const double * args_) = 0;
+      /// A schedule point
+      virtual void yield(const char * point_) = 0;
+    };
+
+    /// Tracer of the calling thread (null by default)
+    inline tracer *& current_tracer()
+    {
+      static thread_local tracer * _t = nullptr;
+      return _t;
+    }
+
+    /// \brief RAII enter/leave event
+    struct scope
+    {
+      template <typename... A>
+      explicit scope(const char * name_, A... a_) : _name_(name_), _t_(current_tracer())
+      {
+        if (_t_ != nullptr) {
+          const double v[] = {static_cast<double>(a_)..., 0.0};
+          _t_->enter(_name_, sizeof...(A), v);
+        }
+      }
+      ~scope()
+      {
+        if (_t_ != nullptr) {
+          _t_->leave(_name_);
+        }
+      }
+      scope(const scope &) = delete;
+      scope & operator=(const scope &) = delete;
+      const char * _name_;
+      tracer * _t_;
+    };
+
+    template <typename... A>
+    inline void note(const char * name_, A... a_)
+    {
+      tracer * t = current_tracer();
+      if (t != nullptr) {
+        const double v[] = {static_cast<double>(a_)..., 0.0};
+        t->note(name_, sizeof...(A), v);
+      }
+    }
+
+    inline void yield(const char * point_)
+    {
+      tracer * t = current_tracer();
+      if (t != nullptr) {
+        t->yield(point_);
+      }
+    }
+
+  } // namespace verif
+} // namespace bxdecay0
+
+#define BXDECAY0_VERIF_CAT2(a, b) a##b
+#define BXDECAY0_VERIF_CAT(a, b) BXDECAY0_VERIF_CAT2(a, b)
+#define BXDECAY0_VERIF_SCOPE(...) ::bxdecay0::verif::scope BXDECAY0_VERIF_CAT(bxdecay0_verif_scope_, __LINE__)(__VA_ARGS__)
+#define BXDECAY0_VERIF_NOTE(...) ::bxdecay0::verif::note(__VA_ARGS__)
+#define BXDECAY0_VERIF_YIELD(point_) ::bxdecay0::verif::yield(point_)
+
+#else // !BXDECAY0_VERIF
+
+#define BXDECAY0_VERIF_SCOPE(...) ((void)0)
+#define BXDECAY0_VERIF_NOTE(...) ((void)0)
+#define BXDECAY0_VERIF_YIELD(point_) ((void)0)
+
+#endif // BXDECAY0_VERIF
+
+#endif // BXDECAY0_VERIF_HOOKS_H
